@@ -127,15 +127,8 @@ theorem scopedHeld_after_notBody (C : Ctx) (S : Shape) (ses : Session) (u' : Use
             | some p => op (.poisonSet p) fun _ => (toRaw C.W S).rel ses.mode
             | none => (toRaw C.W S).rel ses.mode))
         (fun _ => scopedUnwound ses u') fun _ =>
-        match isPoisonableTop S with
-        | some _ =>
-          bindX ((toRaw C.W S).rel ses.mode) (fun _ => scopedUnwound ses u') fun _ =>
-            dropKeyIf ses.key (op (.mark mkEndCall) fun _ => op (.mark mkKeyBack) fun _ => done (out, u'))
-        | none =>
-          dropKeyIf ses.key
-            (bindX ((toRaw C.W S).rel ses.mode)
-              (fun _ => op (.mark mkEndCall) fun _ => op (.mark mkKeyBack) fun _ => done (mkOutPanic, u'))
-              fun _ => op (.mark mkEndCall) fun _ => op (.mark mkKeyBack) fun _ => done (out, u'))) := by
+        bindX ((toRaw C.W S).rel ses.mode) (fun _ => scopedUnwound ses u') fun _ =>
+          dropKeyIf ses.key (op (.mark mkEndCall) fun _ => op (.mark mkKeyBack) fun _ => done (out, u'))) := by
   obtain ⟨_, _, hrel⟩ := lock_notBody C.W S
   have hend : ∀ r : Nat × UserSt, OpsIn notBody
       (op (.mark mkEndCall) fun _ => op (.mark mkKeyBack) fun _ => (done r : Prog Unit (Nat × UserSt))) :=
@@ -149,9 +142,7 @@ theorem scopedHeld_after_notBody (C : Ctx) (S : Shape) (ses : Session) (u' : Use
     split
     · exact .op _ _ (by intro h; cases h) (fun _ => hrel _)
     · exact hrel _
-  · split
-    · exact (hrel _).bindX (fun _ => scopedUnwound_notBody ses u') (fun _ => dropKeyIf_notBody _ (hend _))
-    · exact dropKeyIf_notBody _ ((hrel _).bindX (fun _ => hend _) (fun _ => hend _))
+  · exact (hrel _).bindX (fun _ => scopedUnwound_notBody ses u') (fun _ => dropKeyIf_notBody _ (hend _))
 
 /-- **The closure of a scoped call is entered exactly once iff the acquisition succeeded.**
 Along every execution (any answers, faults, panics) of a scoped session: either the closure was
